@@ -734,7 +734,53 @@ def run_leaves(tier, r):
             r.violation("C20/deepcopy/leaf-shared", {"leaves": ["deepcopy", "_io", "parsed"]}, "the copy of a parsed container shares the stream object _io with the original")
     except Exception as e:
         r.violation("C20/deepcopy/raised-%s" % type(e).__name__, {"leaves": ["deepcopy", "parsed", "struct"]}, "deepcopy of a parsed Struct result raised %r" % (e,))
-    r.sample({"leaves": [n for n, _, _ in leaves()], "placements": 6, "copies": ["deepcopy", "pickle2", "pickle5"]})
+    # many entries (size axis): order, equality, views and every copy on containers with n keys / elements, nested 3 deep
+    from .. import scale
+    for n in [x for x in scale.sizes(tier) if x <= 8193]:
+        keys = ["k%d" % ((i * 7919) % n) for i in range(n)]                      # a permutation: insertion order != sorted order
+        keys = list(dict.fromkeys(keys))
+        big = C.Container()
+        for i, k in enumerate(keys):
+            big[k] = i if i % 5 else C.Container(v=i, _p=i)
+        lc = C.ListContainer(C.Container(i=i, even=(i % 2 == 0)) for i in range(n))
+        top = C.Container(a=big, b=lc, c=C.Container(z=C.ListContainer([big])))
+        r.states += 1
+        probs = []
+        if list(big.keys()) != keys or [k for k in big] != keys or list(big.items()) != [(k, big[k]) for k in keys] or len(big) != len(keys):
+            probs.append("keys/iteration/items of a %d-key container are not in insertion order" % len(keys))
+        if any(getattr(big, k) is not big[k] for k in keys[::97]):
+            probs.append("attribute and key access differ")
+        other = C.Container()
+        for k in reversed(keys):
+            other[k] = big[k] if not isinstance(big[k], dict) else C.Container(v=big[k]["v"], _p=-1)
+        if not (big == other and other == big) or big != other or not (big == dict(other)):
+            probs.append("equality of two %d-key containers differing in insertion order and private entries only" % len(keys))
+        other[keys[n // 2]] = "changed"
+        if big == other or not (big != other):
+            probs.append("containers differing in one of %d entries compare equal" % len(keys))
+        if not (lc == list(lc)) or lc != [C.Container(i=i, even=(i % 2 == 0)) for i in range(n)]:
+            probs.append("ListContainer of %d elements does not equal the list of its elements" % n)
+        for op in COPYOPS:
+            try:
+                cp = do_copy(op, top)
+            except Exception as e:
+                probs.append("%s raised %r" % (op, e)); continue
+            if not (cp == top) or list(cp["a"].keys()) != keys or type(cp["b"]) is not type(lc) or len(cp["b"]) != n:
+                probs.append("%s of the %d-entry tree is not equal / ordered like the original" % (op, n))
+            elif op in DEEP and (cp["a"] is big or cp["a"][keys[0]] is big[keys[0]] or cp["c"]["z"][0] is big):
+                probs.append("%s shares nested nodes with the original" % op)
+        try:
+            hits = top.search_all("^even$")
+            if len(hits) != n or hits[:4] != [True, False, True, False][:len(hits[:4])]:
+                probs.append("search_all over %d elements returned %d matches" % (n, len(hits)))
+            if top.search("^v$") != 0:
+                probs.append("search returned %r instead of the first match in order" % (top.search("^v$"),))
+        except Exception as e:
+            probs.append("search raised %r" % (e,))
+        r.case(nontrivial=True, outcome="many-ok" if not probs else "many-bad", transitions=12, validated=1)
+        if probs:
+            r.violation("C20/many-entries", {"leaves": ["many", n]}, "; ".join(probs[:4]))
+    r.sample({"leaves": [n for n, _, _ in leaves()], "placements": 6, "copies": ["deepcopy", "pickle2", "pickle5"], "many_entries": [x for x in scale.sizes(tier) if x <= 8193]})
 
 
 def run_hexbig(r):
